@@ -857,13 +857,29 @@ def _affinity(W: World, cls: ClassInfo) -> Optional[ClassInfo]:
     raise Unsupported(f"_type_affinity of {cls.qualname} evaluates to {v!r}")
 
 
-def _write_type(W: World, cls: ClassInfo) -> Tuple[Optional[str], str]:
-    """text the dialect's type compiler writes for an instance of `cls`: first for an instance whose every
-    attribute is None, then for one whose every attribute is the integer 7 (types that need a length)"""
-    why = ""
+def _type_instances(W: World, cls: ClassInfo):
+    """model instances of a type class: built by the class's own constructor (no argument, a length, two
+    labels), then bare instances whose every attribute is None / the integer 7"""
+    L = W.L
+    for args in ((), (7,), ("a", "b")):
+        budget = L.budget
+        try:
+            t = L.run_init(cls, list(args), {})
+        except (Unsupported, ModelRaise):
+            L.budget = budget
+            continue
+        t.default_attr = lambda a: None
+        yield t
     for fill in (None, 7):
         t = Inst(cls, {})
         t.default_attr = (lambda a, fill=fill: fill)
+        yield t
+
+
+def _write_type(W: World, cls: ClassInfo) -> Tuple[Optional[str], str]:
+    """text the dialect's type compiler writes for an instance of `cls` (first model instance it accepts)"""
+    why = ""
+    for t in _type_instances(W, cls):
         t.stubs["dialect_impl"] = lambda dialect, t=t: t
         try:
             txt = W.dispatch(W.tc, t, identifier_preparer=W.wprep)
@@ -961,11 +977,90 @@ def _r1_dialect(ctx, dialect_key: str, W: World):
     W.analysed()
 
 
-@R.rule("C15-R1", floor=90, template="T-TABLE",
-        desc="re-create / re-reflect: every type a dialect's reflection can produce (value of ischema_names under a "
-             "name the catalog can print) is written by the dialect's type compiler as text whose catalog spelling "
-             "(oracle) the same dialect's column reflection reads back to the same type affinity")
+# types a dialect's compiler writes that the backend does not have as a type of its own (documented emulation):
+# the catalog reports the substitute, which is what reflection must return.
+EMULATED = {
+    "dialects/mysql/base.py::MySQLTypeCompiler.visit_BOOLEAN":
+        "MySQL has no boolean type: BOOL/BOOLEAN are synonyms of TINYINT(1) (reference manual, 'Numeric Data Type "
+        "Syntax'); the catalog reports tinyint(1)",
+}
+
+
+def _type_classes_by_visit_name(W: World) -> Dict[str, List[ClassInfo]]:
+    """TypeEngine subclasses by their class level __visit_name__ (dialect package first, then sql/sqltypes.py)"""
+    ix = W.ix
+    te = ix.cls("sql/type_api.py::TypeEngine")
+    pkg = W.dcls.module.relpath.rsplit("/", 1)[0] + "/"
+    out: Dict[str, List[ClassInfo]] = {}
+    for c in ix.all_classes():
+        rel = c.module.relpath
+        if not (rel.startswith(pkg) or rel == "sql/sqltypes.py"):
+            continue
+        nodes = c.assigns.get("__visit_name__")
+        if not nodes or not isinstance(nodes[-1], __import__("ast").Constant) or not isinstance(nodes[-1].value, str):
+            continue
+        if not W.L.is_subclass(c, te):
+            continue
+        out.setdefault(nodes[-1].value, []).append(c)
+    for k in out:
+        out[k].sort(key=lambda c: (not c.module.relpath.startswith(pkg), c.key))
+    return out
+
+
+def _r1_own_names(ctx, dialect_key: str, W: World):
+    """every native type name the dialect's own type compiler class writes is readable by the dialect"""
+    L = W.L
+    dname = W.name
+    by_name = _type_classes_by_visit_name(W)
+    tc = W.tc_cls
+    for mname in sorted(tc.methods):
+        f = tc.methods[mname]
+        nm = mname[len("visit_"):]
+        if not mname.startswith("visit_") or not nm.isupper() or f.type_only:
+            continue
+        key = f"{tc.key}.{mname}:written-name-is-read-back"
+        classes = by_name.get(nm)
+        if not classes:
+            continue
+        cls = classes[0]
+        if f.key in EMULATED:
+            ctx.ok(key, "emulated type: " + EMULATED[f.key], nontrivial=False)
+            continue
+        aff = _guard(ctx, f"affinity of {cls.qualname}", _affinity, W, cls)
+        text, why = _write_type(W, cls)
+        if text is None:
+            ctx.ok(key, f"{cls.name}: not writable in the model ({why[:80]})", nontrivial=False)
+            continue
+        cat = _canonical_type_text(dname, text)
+        try:
+            got = _guard(ctx, f"{dname} column reflection of {cat!r}", _read_type, ctx, W, dname, cat)
+        except ModelRaise as e:
+            ctx.violation(key, f"column reflection raises {e} for catalog type {cat!r} (written as {text!r})", f.loc)
+            continue
+        aff2 = None
+        if isinstance(got, Inst) and got.cls is not None:
+            aff2 = _guard(ctx, f"affinity of {got.cls.qualname}", _affinity, W, got.cls)
+        ok = aff is not None and aff2 is aff
+        ctx.check(ok, key,
+                  f"{cls.name} (affinity {aff.name if aff else None}) is written as {text!r}; the catalog reports {cat!r}; "
+                  f"column reflection reads that as {got.cls.name if isinstance(got, Inst) and got.cls else got!r} "
+                  f"(affinity {aff2.name if aff2 else None})" + (f"; reader warned: {L.warnings}" if L.warnings else ""),
+                  f"{cls.name} -> {text!r} -> {cat!r} -> {got.cls.name if isinstance(got, Inst) and got.cls else got!r}",
+                  f.loc)
+    W.analysed()
+
+
+@R.rule("C15-R1", floor=150, template="T-TABLE",
+        desc="type names: (a) re-create / re-reflect: every type a dialect's reflection can produce (value of "
+             "ischema_names under a name the catalog can print) is written by the dialect's type compiler as text whose "
+             "catalog spelling (oracle) the same dialect's column reflection reads back to the same type affinity; "
+             "(b) every native type name written by a visit_<NAME> method of the dialect's own type compiler class is "
+             "read back to the affinity of the type it was written for")
 def r1(ctx):
-    _r1_dialect(ctx, SQLITE, World(ctx, SQLITE))
-    _r1_dialect(ctx, PG, World(ctx, PG, paramstyle="named", default_schema_name="public", server_version_info=(16, 0)))
-    _r1_dialect(ctx, MYSQL, _mysql_world(ctx))
+    for key, mk in ((SQLITE, lambda: World(ctx, SQLITE)),
+                    (PG, lambda: World(ctx, PG, paramstyle="named", default_schema_name="public",
+                                       server_version_info=(16, 0))),
+                    (MYSQL, lambda: _mysql_world(ctx))):
+        W = mk()
+        _r1_dialect(ctx, key, W)
+        _r1_own_names(ctx, key, W)
